@@ -192,12 +192,27 @@ def discover():
     return hs
 
 
+_TIER_RANK = {"quick": 0, "thorough": 1, "attempt": 2}
+
+
+def eff_tier(h, prop):
+    """tier at which harness h serves property prop: the later of its own tier and the per-property one"""
+    a, b = h.tier, h.prop_tier.get(prop, h.tier)
+    return a if _TIER_RANK.get(a, 0) >= _TIER_RANK.get(b, 0) else b
+
+
 def select(hs, prop, tier, only=None):
     sel = []
     for h in hs:
         if prop not in h.props:
             continue
-        if tier == "quick" and h.prop_tier.get(prop, h.tier) != "quick":
+        t = eff_tier(h, prop)
+        # tiers: quick (every change, < 900 s per property) < thorough (known to be decided within its cap) < attempt
+        # (written and compiled, but never decided by CBMC within the caps tried: run only with --tier attempt, never
+        # by a registered command, because "no verdict" is exit 2)
+        if tier == "quick" and t != "quick":
+            continue
+        if tier == "thorough" and t == "attempt":
             continue
         if only and not any(o in h.id for o in only.split(",")):
             continue
@@ -806,7 +821,7 @@ def main():
         return 0
     if not a.prop:
         ap.error("property id required")
-    if a.tier not in ("quick", "thorough"):
+    if a.tier not in ("quick", "thorough", "attempt"):
         a.tier = "quick"
     return cmd_check(a.prop, a.tier, a.only, a.jobs, a.keep)
 
